@@ -24,6 +24,11 @@
     desc.exportonev <opts> <subject> <triples>
     desc.dexportv  <opts> <ghint> <quads>       desc.dflattenv <opts> <ghint> <quads>
   with `<ghint>` a list of `G>S` pairs (graph-name token or `-`, then the subject token).
+  Histories on one builder (Builder.run / Builder.hout):
+    desc.hist <script> <hint> <triples0> <triples1>   → ok:<n₁,n₂,…>#<resources of the last complete export>
+  `<script>` is a `;`-list of steps  a0 | a1 (Add batch 0/1)  p<opts>.<k> | w<opts>.<k> (export abandoned
+  after k resources: break / writer error)  f<opts> (complete export); nᵢ is the number of resources the
+  i-th export step handed over. `<hint>` orders the second loop of the last complete export.
   Export uses insertion order as iteration order and fuel `|T|+1`; the harness sorts what came out of a
   Go map. Resource syntax:  S(term){stmts}  A{stmts}  N{stmts};  stmt: o(P,term)  a(P){stmts}; stmts
   joined by `,`. Fresh blank nodes print as `F<n>`.
@@ -126,6 +131,38 @@ def parseGHint (s : String) : Option (List (Option (Term L) × Term L)) :=
       pure (g, t)
     | _ => none)
 
+inductive Step where
+  | add (i : Nat)
+  | exp (opts : Opts) (take : Option Nat)
+
+def parseStep (x : String) : Option Step :=
+  match x.toList with
+  | ['a', '0'] => some (.add 0)
+  | ['a', '1'] => some (.add 1)
+  | 'f' :: r => (parseOpts (String.ofList r)).map (fun o => .exp o none)
+  | c :: r =>
+    if c = 'p' ∨ c = 'w' then
+      match (String.ofList r).splitOn "." with
+      | [o, k] => do
+        let o ← parseOpts o
+        let k ← k.toNat?
+        pure (.exp o (some k))
+      | _ => none
+    else none
+  | _ => none
+
+/-- run a script on the model: the numbers handed over by the export steps, and the last complete export -/
+def runScript (hint : List (Term L)) (b0 b1 : List (Triple L)) (fuel : Nat) :
+    List Step → Builder L → List Nat → Option (List (Resource L)) → Option (List Nat × Option (List (Resource L)))
+  | [], _, ns, last => some (ns.reverse, last)
+  | .add i :: rest, B, ns, last =>
+    runScript hint b0 b1 fuel rest (B.hstep (.add (if i = 0 then b0 else b1))) ns last
+  | .exp o take :: rest, B, ns, last =>
+    let st : HStep L := .exportRs o B.subjects (ord2Of hint B.subjects) take
+    match B.hout fuel st with
+    | none => none
+    | some rs => runScript hint b0 b1 fuel rest (B.hstep st) (rs.length :: ns) (if take.isNone then some rs else last)
+
 def dexportV (opts : Opts) (gh : List (Option (Term L) × Term L)) (Q : List (DQuad L)) : Option (List (DResource L)) :=
   let D := dbuild Q
   D.exportResourcesV opts D.graphNames (fun g => (D.builder g).subjects)
@@ -215,6 +252,15 @@ def handle (op : String) (args : List String) : Option String :=
     match dexportV opts gh Q with
     | some rs => pure ("ok:" ++ String.intercalate "|"
         ((dgroups rs 0).map (fun g => String.intercalate ";" (g.map showQuadBN))))
+    | none => pure "diverges"
+  | "hist", [sc, h, t0, t1] => do
+    let steps ← (splitList sc).mapM parseStep
+    let hint ← parseTerms h
+    let b0 ← parseTriples t0
+    let b1 ← parseTriples t1
+    match runScript hint b0 b1 (b0.length + b1.length + 1) steps Builder.empty [] none with
+    | some (ns, last) => pure ("ok:" ++ String.intercalate "," (ns.map toString) ++ "#" ++
+        String.intercalate ";" ((last.getD []).map showResource))
     | none => pure "diverges"
   | "acyclic1", [ts] => do
     let T ← parseTriples ts
